@@ -6,10 +6,11 @@ from .. import lbgen
 from . import c02
 
 ID = "C11"
-MODULES = ["Helios.Props.C11"]
+MODULES = ["Helios.Props.C11", "Helios.Props.Facts"]
 THEOREMS = ["Helios.LB.add_listed_eligible", "Helios.LB.add_failed_noop", "Helios.LB.add_nodup",
             "Helios.LB.remove_absent_after", "Helios.LB.remove_keeps_others", "Helios.LB.switch_preserves",
-            "Helios.LB.switch_failed_noop", "Helios.LB.strategy_names"]
+            "Helios.LB.switch_failed_noop", "Helios.LB.strategy_names",
+            "Helios.Facts.strategies_eq"]
 NAMES = ["a", "b", "c", "d"]
 
 
